@@ -613,7 +613,27 @@ ABIGEN_SIGS = {
 
 
 def _abigen_new(eng, st, fr, args, ins):
-    return (eng.alloc_val(st, "zz:binding", ("binding",)), None)
+    return (eng.alloc_val(st, "zz:binding", ("binding", args[0], args[1])), None)
+
+
+# read calls of a binding with one bytes32 argument and one uint256 result: run as zzverifeth.CallWord over the backend the
+# binding was created with (the harness's fake node answers eth_call)
+ABIGEN_CALLS = {("polygonzkevmglobalexitrootv2", "GlobalExitRootMap"): "globalExitRootMap(bytes32)"}
+CALLWORD = "github.com/agglayer/aggkit/internal/zzverifeth.CallWord"
+
+
+def _abigen_call(eng, st, fr, args, ins, sig):
+    import keccak as kk
+    recv = args[0]
+    if recv is None or isinstance(recv, Opaque) or eng.objtype.get(recv.obj) != "zz:binding":
+        raise Unsupported("contract call on a binding not created by a modelled constructor")
+    _, addr, backend = st.heap[recv.obj]
+    if backend is None:
+        raise Unsupported("contract call on a binding without backend")
+    if CALLWORD not in eng.ir.funcs:
+        raise Unsupported("contract call: package internal/zzverifeth is not loaded")
+    sel = tuple(kk.keccak256(sig.encode())[:4])
+    return eng.push_call(st, CALLWORD, [backend, addr, sel, args[2]])
 
 
 def _abigen_parse(eng, st, fr, args, ins, fname):
@@ -694,6 +714,10 @@ def install_abigen(eng):
         full, contract = ABIGEN_PKGS[pkg]
         name = "(*%s%s.%sFilterer).Parse%s" % (CT, full, contract, event)
         eng.intrinsics[name] = (lambda e, s, f, a, i, n=name: _abigen_parse(e, s, f, a, i, n))
+    for (pkg, meth), sig in ABIGEN_CALLS.items():
+        full, contract = ABIGEN_PKGS[pkg]
+        name = "(*%s%s.%sCaller).%s" % (CT, full, contract, meth)
+        eng.intrinsics[name] = (lambda e, s, f, a, i, g=sig: _abigen_call(e, s, f, a, i, g))
 
 
 # ---- regexp on concrete strings (table-name validation and the like)
